@@ -87,8 +87,13 @@ TPay ==
                      /\ pdisc' = TRUE
                      /\ UNCHANGED <<sync, cur, must, out>>
                 ELSE /\ e.n = PSize(p)                         \* the harness serialised what the script describes
-                     /\ LET ab == AbsPay(p, sync, cur) IN
-                        /\ sync' = ab.sync /\ cur' = ab.cur /\ must' = must \o ab.must
+                     /\ IF e.rf > 0
+                        \* an allocation was refused inside the merger during this payload: its data is missing
+                        \* (and so is the section that was being assembled) - nothing of it is due, the merger
+                        \* has to resynchronise at the next unit start; what it did output is still judged
+                        THEN sync' = FALSE /\ cur' = 0 /\ must' = must
+                        ELSE LET ab == AbsPay(p, sync, cur) IN
+                             sync' = ab.sync /\ cur' = ab.cur /\ must' = must \o ab.must
                      /\ out' = out \o e.out
                      /\ pdisc' = FALSE
     /\ UNCHANGED <<pipe, secs, maxpay, ended, present, sok, jins, jok>>
